@@ -348,8 +348,11 @@ pub fn gen_case(seed: u64, focus: &str) -> Value {
                 ("half_close_after_request", 2),
             ];
             let fault = fault_w[rng.weighted(&fault_w.iter().map(|x| x.1).collect::<Vec<_>>())].0;
+            // size of a "solve_large" body (insignificant whitespace): the server disables the body
+            // limit, so sizes on both sides of the framework's 2 MB default must be served
+            let pad = *g.pick(&[200_000u64, 200_000, 1_200_000, 2_500_000, 5_000_000]);
             reqs.push(json!({"kind": kind, "instance": inst, "fault": fault, "pipelined": rng.chance(1, 6), "chunk": *rng.pick(&[1u64, 7, 64, 1024, 1 << 20]),
-                             "header_style": *rng.pick(&[0u64, 0, 0, 1, 2]), "expect_continue": rng.chance(1, 8)}));
+                             "header_style": *rng.pick(&[0u64, 0, 0, 1, 2]), "expect_continue": rng.chance(1, 8), "pad": pad}));
         }
         clients.push(json!({"requests": reqs}));
     }
@@ -448,9 +451,9 @@ fn build_request(id: String, r: &Value) -> Req {
         "solve_chunked" => (Class::ValidSolve, http_request("POST", "/solve", "1.1", &ct("application/json"), &body_ok, Some(97))),
         "solve_http10" => (Class::ValidSolve, http_request("POST", "/solve", "1.0", &ct("application/json"), &body_ok, None)),
         "solve_large" => {
-            // insignificant whitespace up to ~200 kB: the body limit is disabled
+            // insignificant whitespace up to the size the script chose: the body limit is disabled
             let mut b = body_ok.clone();
-            let pad = 200_000usize.saturating_sub(b.len());
+            let pad = (r["pad"].as_u64().unwrap_or(200_000) as usize).saturating_sub(b.len());
             b.splice(1..1, std::iter::repeat(b' ').take(pad));
             (Class::ValidSolve, http_request("POST", "/solve", "1.1", &ct("application/json"), &b, None))
         }
@@ -520,7 +523,7 @@ fn build_request(id: String, r: &Value) -> Req {
             let c = r["chunk"].as_u64().unwrap_or(1 << 20) as usize;
             // byte-wise delivery of a 200 kB body would only burn steps
             if is_large {
-                c.max(8192)
+                c.max(if r["pad"].as_u64().unwrap_or(0) > 500_000 { 1 << 16 } else { 8192 })
             } else {
                 c
             }
